@@ -145,6 +145,30 @@ def run_case(case):
         for d in duals:
             for _ in range(rnd.randint(0, 3)):
                 toggle_dual(d)
+        # subscribers that are bound methods of objects which nothing but the subscription
+        # refers to (x.subscribe(Listener().on_update)): they stay subscribed - and alive
+        import gc
+
+        class _Listener:
+            def __init__(self, sub):
+                self.sub = sub
+
+            async def on_update(self, *a, **kw):
+                return await self.sub(*a, **kw)
+
+        orphans = []
+        targets = [("at", "airtouch", None, at.subscribe)]
+        for ac in at.air_conditioners:
+            targets.append(("ac", "ac", ac.ac_id, ac.subscribe))
+            targets.append(("ac_state", "ac", ac.ac_id, ac.subscribe_ac_state))
+            for z in ac.zones:
+                targets.append(("zone", "zone", z.zone_id, z.subscribe))
+        for kind, ck, ent, attach in rnd.sample(targets, min(3, len(targets))):
+            o = {"sub": H.Sub(log, f"orphan:{kind}:{ent}", hashv=rnd.getrandbits(20)),
+                 "kind": kind, "ck": ck, "ent": ent}
+            attach(_Listener(o["sub"]).on_update)
+            orphans.append(o)
+        gc.collect()
         # one callable that the application registers on a zone AND on the air-conditioner
         # owning it (it tells the two apart by the identifier it is called with)
         shared = []
@@ -304,6 +328,20 @@ def run_case(case):
                                  "detail": info})
                 elif must:
                     obs["must_verdicts"] = obs.get("must_verdicts", 0) + 1
+            for o in orphans:
+                got = calls.get(o["sub"].name, [])
+                must = any(ch[1] == o["ck"] and (o["ent"] is None or ch[2] == o["ent"])
+                           and ch[3] is True for ch in changes)
+                if must:
+                    obs["subscriber_whose_owner_only_the_subscription_holds"] = obs.get(
+                        "subscriber_whose_owner_only_the_subscription_holds", 0) + 1
+                    if not got:
+                        viol.append({"mechanism": "subscriber-not-called-on-change:"
+                                     "owner_held_by_subscription_only",
+                                     "detail": {"subscriber": o["sub"].name, "frame": raw,
+                                                "step": step}})
+            if step % 5 == 0:
+                gc.collect()
             for sh in shared:
                 got = [a[0] if a else None for a in calls.get(sh["sub"].name, [])]
                 zmust = any(ch[1] == "zone" and ch[2] == sh["zone"] and ch[3] is True
